@@ -327,7 +327,7 @@ impl TxHistory {
     }
 }
 
-pub const SYS_OPS: usize = 35;
+pub const SYS_OPS: usize = 41;
 
 impl TxHistory {
     pub fn systematic_total(depth: u32) -> u64 {
@@ -376,6 +376,14 @@ impl TxHistory {
             // insertion at index == len (a legal append; the lists start with two elements and never shrink)
             32 => json!({"op": "insert_output", "obj": obj, "idx": 2, "txout": {"value": "13", "script": "57"}}),
             33 => json!({"op": "insert_input", "obj": obj, "idx": 2, "txin": txin(0xa5, 4, 8)}),
+            // bulk adders with something in them, restarts through the two other serialisations, and replacements that are
+            // near neighbours of what they replace (an equal element written back; the value alone changed)
+            34 => json!({"op": "add_inputs", "obj": obj, "txins": [txin(0xb1, 0, 3), txin(0xb2, 1, 4)]}),
+            35 => json!({"op": "add_outputs", "obj": obj, "txouts": [{"value": "14", "script": "58"}, {"value": "15", "script": "59"}]}),
+            36 => json!({"op": "restart", "obj": obj, "kind": "json"}),
+            37 => json!({"op": "restart", "obj": obj, "kind": "cbor"}),
+            38 => json!({"op": "set_output", "obj": obj, "idx": 0, "txout": {"value": "16", "script": "5a"}, "derive": "same"}),
+            39 => json!({"op": "set_output", "obj": obj, "idx": 1, "txout": {"value": "17", "script": "5b"}, "derive": "value_only"}),
             _ => json!({"op": "switch"}),
         }
     }
@@ -428,14 +436,14 @@ impl Scenario for TxHistory {
         ScenarioInfo {
             property: "C04",
             name: "tx-history",
-            rule: "the first run indices enumerate systematically every sequence up to depth 3 (quick) / 4 (thorough) over a 35-operation alphabet (every mutator, every cache-filling flag class, out-of-range SINGLE, sign, hash_inputs, fork, switch-object, restart) applied to a 2-input/2-output transaction; after that one case = one seeded history of 5-40 public API calls (14 mutators incl. add/prepend/insert/set for inputs and outputs, set_version/set_nlocktime, sighash_preimage / sign / sign_with_k with all 14 flag values, hash_inputs, read-only calls, clone forks, restarts through wire/JSON/CBOR) on 1-4 live Transaction objects; non-trivial = at least one memo slot was filled when a later mutator or restart/fork arrived (a stale window existed) ; distinct = distinct fingerprint of the (object, op-kind, flag/index class, fault-kind) sequence, payload bytes ignored",
+            rule: "the first run indices enumerate systematically every sequence up to depth 3 (quick) / 4 (thorough) over a 41-operation alphabet (every mutator incl. non-empty bulk adders, every cache-filling flag class, out-of-range SINGLE, sign, hash_inputs, fork, switch-object, restart through wire / JSON / CBOR, replacement by an equal element and by one that differs in the value only) applied to a 2-input/2-output transaction; after that one case = one seeded history of 5-40 public API calls (14 mutators incl. add/prepend/insert/set for inputs and outputs, set_version/set_nlocktime, sighash_preimage / sign / sign_with_k with all 14 flag values, hash_inputs, read-only calls, clone forks, restarts through wire/JSON/CBOR) on 1-4 live Transaction objects; non-trivial = at least one memo slot was filled when a later mutator or restart/fork arrived (a stale window existed) ; distinct = distinct fingerprint of the (object, op-kind, flag/index class, fault-kind) sequence, payload bytes ignored",
             abstract_state: "(bucket(n_in), bucket(n_out), set of filled memo slots subset of {I,S,O}, last mutator kind, fork depth)",
             real: &["bsv::Transaction (all mutators, sighash_preimage, sign, sign_with_k, verify, hash_inputs, clone, to/from bytes, JSON, CBOR)", "bsv::TxIn", "bsv::TxOut", "bsv::Script::from_bytes", "bsv::PrivateKey", "bsv::SighashSignature"],
             stub: &["model transaction (plain Vec operations) with a 30-line reference serialiser", "history-free oracle object = Transaction::from_bytes(current serialisation)"],
             assumptions: &["restart-json/cbor events are applied only when the restored object re-serialises to the same wire bytes (coinbase inputs do not; that is C18's subject)", "API preconditions respected by the generator: insert index <= len, set index < len, 32-byte txids, well-formed scripts"],
             required_probes: &["slot_filled_then_mutated", "sighash_after_mutation", "restart_applied", "fork_applied", "flag_class_ISO", "flag_class_O_only", "set_input_with_filled_slot", "set_output_with_filled_slot"],
-            quick_runs: 80_000,
-            thorough_runs: 5000000,
+            quick_runs: 120_000,
+            thorough_runs: 6_000_000,
             rlimit_as: 8 << 30,
             alloc_abort_is_violation: true,
         }
@@ -444,7 +452,7 @@ impl Scenario for TxHistory {
     fn generate(&self, rng: &mut Rng, tier: Tier, index: u64) -> Plan {
         // ---- systematic prefix: the first run indices enumerate EVERY sequence up to a fixed depth over a compact
         // operation alphabet (every mutator, every cache-filling flag class, fork/switch/restart); the seeded random
-        // histories follow. Depth 3 in quick (44 135 sequences), depth 4 in thorough (1 544 760).
+        // histories follow. Depth 3 in quick (70 643 sequences), depth 4 in thorough (2 896 404).
         if let Some(p) = Self::systematic_plan(index, if tier == Tier::Thorough { 4 } else { 3 }) {
             return p;
         }
